@@ -343,6 +343,11 @@ class C12:
                     snap = snapshot(tid)
                     ctx["probes"]["reads"] += 1
                     result = ("read", snap["completed"], snap["finished"])
+                    # an atomic snapshot is consistent in itself whatever the other threads do
+                    pe = percentage(snap["total"], snap["completed"])
+                    if not math.isclose(snap["percentage"], pe, rel_tol=1e-9, abs_tol=1e-9):
+                        viol("percentage", "percentage-mismatch", "snapshot of task %d: percentage %r, formula gives %r for %r/%r" % (
+                            op[1][1], snap["percentage"], pe, snap["completed"], snap["total"]))
                     if state_box.get("signs"):
                         check_signs(op[1][1], snap, False, False)
             ret = sim.event("ret", (thread, k, kind_))
